@@ -540,7 +540,10 @@ def decide_path(ob, path, claims, assume_f, replay_fn, dump=None):
                 sp = _solver(ob.solver_timeout_ms)
                 sp.add(_base_constraints(ob, path, assume_f) + core.mono_facts(set(core.CTX.monos)))
                 sp.add(pz)
-                if _check(sp, pv) != "unsat":
+                rp_ = _check(sp, pv)
+                if rp_ != "unsat":
+                    if os.environ.get("SYMQ_DEBUG"):
+                        print("per-claim fallback:", getattr(c, "label", c), "->", rp_, str(part)[:300], file=sys.stderr)
                     all_unsat = False
                     break
             if not all_unsat:
@@ -628,6 +631,10 @@ def decide_path(ob, path, claims, assume_f, replay_fn, dump=None):
                 negw = _claims_neg(claims, thr)
                 if negw.k == "const" and not negw.a:
                     continue
+                if pcm:
+                    negw = negw.tighten(pcm)     # the claim is to be violated with a margin, too (thresholds inside the claim itself)
+                    if negw.k == "const" and not negw.a:
+                        continue
                 negwz = negw.z3()       # registers the claim's monomials before the exact constraints are collected
                 s3 = _solver(min(ob.solver_timeout_ms, 20000))
                 s3.add(core.bounds_constraints(margin))
